@@ -254,3 +254,13 @@ M("c20-iter-stops-at-hole", ["C20"], "iterator stops at an empty slot after id 3
   ("src/ram_bundle.rs", "            match self.ram_bundle.get_module(next_id) {\n                Ok(None) => continue,", "            match self.ram_bundle.get_module(next_id) {\n                Ok(None) => { if next_id > 3 { return None; } continue },"))
 M("c20-magic-loose", ["C20"], "is_ram_bundle_slice accepts a magic with the low byte off",
   ("src/ram_bundle.rs", "        self.magic == RAM_BUNDLE_MAGIC", "        self.magic | 1 == RAM_BUNDLE_MAGIC | 1"))
+
+# ---- size thresholds (validate the large-size sub-checks) ----------------------------------
+M("size-lookup-large-maps", ["C04"], "lookup uses a coarse first step that is wrong for maps with more than 512 tokens",
+  ("src/types.rs", "        let (idx, raw) =\n            greatest_lower_bound(&self.tokens, &(line, col), |t| (t.dst_line, t.dst_col))?;", "        let (idx, raw) = if self.tokens.len() > 512 && (line, col) >= (self.tokens[512].dst_line, self.tokens[512].dst_col) && (line, col) < (self.tokens[512].dst_line, self.tokens[512].dst_col.saturating_add(2)) {\n            (511, &self.tokens[511])\n        } else {\n            greatest_lower_bound(&self.tokens, &(line, col), |t| (t.dst_line, t.dst_col))?\n        };"))
+M("size-encoder-many-tokens", ["C03", "C01"], "encoder resets the previous original column after 1000 emitted tokens",
+  ("src/encoder.rs", "        encode_vlq_diff(&mut rv, token.get_dst_col(), prev_dst_col);\n        prev_dst_col = token.get_dst_col();", "        if idx == 1000 { prev_src_col = 0; }\n        encode_vlq_diff(&mut rv, token.get_dst_col(), prev_dst_col);\n        prev_dst_col = token.get_dst_col();"))
+M("size-rmi-index-100", ["C07"], "range bit dropped for segment index >= 100 on a line",
+  ("src/encoder.rs", "        if token.is_range() {\n            had_rmi = true;\n            empty = false;", "        if token.is_range() && num < 100 {\n            had_rmi = true;\n            empty = false;"))
+M("size-decoder-long-line", ["C02", "C06"], "decoder treats the 200th segment of a line as starting a new column run",
+  ("src/decoder.rs", "            nums.clear();\n            parse_vlq_segment_into(segment, &mut nums)?;\n            dst_col = (i64::from(dst_col) + nums[0]) as u32;", "            nums.clear();\n            parse_vlq_segment_into(segment, &mut nums)?;\n            if line_index == 200 { dst_col = 0; }\n            dst_col = (i64::from(dst_col) + nums[0]) as u32;"))
